@@ -1,6 +1,8 @@
 import Hgxv.Model.Wire
 import Hgxv.Model.C07
 import Hgxv.Model.C07Heap
+import Hgxv.Model.C07Dumps
+import Hgxv.Model.C07Side
 /-! Line protocol for C07.  Slots hold either a table state (`Tables κ`) or an abstract content (`Content κ`)
 of one of the four kinds `H D T M`.
 
@@ -26,6 +28,13 @@ argument is optional.  Keys of hyperedges: `Wire.natss?` (`H: 1,2,3`  `D: 1,2;3`
   heap <cell|cell|..> <r,r,..>   metadata OBJECTS: cell = `a<v>` (atom / unshared subtree), `l<i,i>` / `l-` (list of
                      addresses), `o<k:i,k:i>` / `o-` (dict of addresses), addresses = positions of older cells;
                      answers the values and the `serialize` results of the objects at the addresses r   -> [v,..] [v,..]
+  dumps <v>          `json.dumps(v, sort_keys=True)` (`dumpsJ pyFmt`); in `<v>` strings may also be written
+                     `u<hex>.<hex>..` (code points; `u` alone = empty string) and keys `$<hex>.<hex>..` / `$`   -> =<text>
+  onew <slot> <kind> <0|1> <obj>           object WITH the side tables `_incidences_metadata` / `_empty_edges` (`Obj κ`)   -> ok
+                     on such a slot: every table command above (run through `ostep (.base op)`), and
+  setinc <slot> <key> <n> <v>   set_incidence_metadata        addempty <slot> <name> <v>   add_empty_edge        -> ok | rej
+  side <slot>        the side tables as stored: `<keyTree>@<n>=<v>|..` (or `-`) and the registry as a dict       -> inc empties
+  text <slot>        `hashText pyFmt`: the JSON text whose SHA-256 is the hash                                  -> =<text> | none
 -/
 open Wire C07
 
@@ -50,6 +59,22 @@ def isWordChar (c : Char) : Bool := c.isAlphanum || c == '_'
 def takeWord (cs : List Char) : String × List Char :=
   (String.ofList (cs.takeWhile isWordChar), cs.dropWhile isWordChar)
 
+def isHexChar (c : Char) : Bool := c.isDigit || ('a' ≤ c && c ≤ 'f')
+
+def hexVal (c : Char) : Nat := if c.isDigit then c.toNat - 48 else c.toNat - 87
+
+/-- `41.e9.1f600` -> the string of these code points -/
+def takeHexString (cs : List Char) : String × List Char :=
+  let body := cs.takeWhile (fun c => isHexChar c || c == '.')
+  let rest := cs.dropWhile (fun c => isHexChar c || c == '.')
+  let parts := (String.ofList body).splitOn "."
+  (String.ofList ((parts.filter (· ≠ "")).map (fun p => Char.ofNat (p.toList.foldl (fun a c => 16 * a + hexVal c) 0))), rest)
+
+def takeKey (cs : List Char) : String × List Char :=
+  match cs with
+  | '$' :: r => takeHexString r
+  | _ => (String.ofList (cs.takeWhile (fun c => c.isAlphanum || c == '_')), cs.dropWhile (fun c => c.isAlphanum || c == '_'))
+
 def takeInt (cs : List Char) : Option (Int × List Char) :=
   let isNumChar := fun (c : Char) => c.isDigit || c == '-'
   let w := String.ofList (cs.takeWhile isNumChar)
@@ -63,6 +88,7 @@ partial def parseTree : List Char → Option (JTree × List Char)
   | 'i' :: r => (takeInt r).map (fun (i, r') => (.num (.int i), r'))
   | 'q' :: r => (takeInt r).map (fun (i, r') => (.num (.flt i), r'))
   | 's' :: r => let (w, r') := takeWord r; some (.str w, r')
+  | 'u' :: r => let (w, r') := takeHexString r; some (.str w, r')
   | '[' :: ']' :: r => some (.arr [], r)
   | '[' :: r => (parseItems r).map (fun (l, r') => (.arr l, r'))
   | '{' :: '}' :: r => some (.obj [], r)
@@ -74,7 +100,7 @@ partial def parseItems (cs : List Char) : Option (List JTree × List Char) :=
   | some (v, ']' :: r) => some ([v], r)
   | _ => none
 partial def parseFields (cs : List Char) : Option (List (String × JTree) × List Char) :=
-  let (k, r0) := takeWord cs
+  let (k, r0) := takeKey cs
   match r0 with
   | ':' :: r1 =>
     match parseTree r1 with
@@ -143,16 +169,18 @@ def arrOf? (s : String) (n : Nat) : Option (List JTree) :=
 inductive Slot where
   | th (t : Tables KH) | td (t : Tables KD) | tt (t : Tables KT) | tm (t : Tables KM)
   | ch (c : Content KH) | cd (c : Content KD) | ct (c : Content KT) | cm (c : Content KM)
+  | oh (o : Obj KH) | od (o : Obj KD) | ot (o : Obj KT) | om (o : Obj KM)
 
 abbrev St := List (Nat × Slot)
 
 class SlotOf (κ : Type) where
   tab : Tables κ → Slot
   con : Content κ → Slot
-instance : SlotOf KH := ⟨.th, .ch⟩
-instance : SlotOf KD := ⟨.td, .cd⟩
-instance : SlotOf KT := ⟨.tt, .ct⟩
-instance : SlotOf KM := ⟨.tm, .cm⟩
+  obj : Obj κ → Slot
+instance : SlotOf KH := ⟨.th, .ch, .oh⟩
+instance : SlotOf KD := ⟨.td, .cd, .od⟩
+instance : SlotOf KT := ⟨.tt, .ct, .ot⟩
+instance : SlotOf KM := ⟨.tm, .cm, .om⟩
 
 def showOpt : Option JTree → String
   | some t => showTree t
@@ -229,6 +257,7 @@ def tabCmd {κ} [Kind κ] [WireKey κ] [SlotOf κ] (st : St) (slot : Nat) (t : T
     match tree? v with
     | some v => acc st slot (step t (.setHAttr f v))
     | _ => (st, "bad-op")
+  | ["text"] => (st, match hashText pyFmt t with | some x => "=" ++ x | none => "none")
   | ["expose"] => (st, showOpt (expose? t))
   | ["pre"] => (st, showOpt (preimage? t))
   | ["content"] => (st, showTree (canon (content t)))
@@ -244,6 +273,54 @@ def conCmd {κ} [Kind κ] [WireKey κ] [SlotOf κ] (st : St) (slot : Nat) (c : C
     | some k, some w, some md => (AL.set st slot (SlotOf.con { c with edges := c.edges ++ [(k, w, md)] }), "ok")
     | _, _, _ => (st, "bad-op")
   | ["canon"] => (st, showTree (canon c))
+  | _ => (st, "bad-op")
+
+/-- the table commands as `Op`s (single calls; the batched ones are not used on object slots) -/
+def baseOp? {κ} [WireKey κ] : List String → Option (Op κ)
+  | ["addnode", n, md] => do let n ← n.toNat?; let md ← optTree? md; pure (.addNode n md)
+  | ["addedge", k, w, md] => do let k ← key? (κ := κ) k; let w ← optNum? w; let md ← optTree? md; pure (.addEdge k w md)
+  | ["rmedge", k] => do let k ← key? (κ := κ) k; pure (.removeEdge k)
+  | ["rmnode", n, keep] => do let n ← n.toNat?; pure (.removeNode n (keep == "1"))
+  | ["setnm", n, md] => do let n ← n.toNat?; let md ← tree? md; pure (.setNodeMeta n md)
+  | ["setem", k, md] => do let k ← key? (κ := κ) k; let md ← tree? md; pure (.setEdgeMeta k md)
+  | ["sethm", md] => do let md ← tree? md; pure (.setHMeta md)
+  | ["setw", k, w] => do let k ← key? (κ := κ) k; let w ← num? w; pure (.setWeight k w)
+  | ["clear"] => some .clear
+  | _ => none
+
+def oacc {κ} [SlotOf κ] (st : St) (slot : Nat) (r : Obj κ × Bool) : St × String :=
+  if r.2 then (AL.set st slot (SlotOf.obj r.1), "ok") else (st, "rej")
+
+def showInc {κ} [Kind κ] (l : List ((κ × Nat) × JTree)) : String :=
+  if l.isEmpty then "-" else
+  "|".intercalate (l.map (fun e => showTree (Kind.keyTree e.1.1) ++ "@" ++ toString e.1.2 ++ "=" ++ showTree e.2))
+
+def objCmd {κ} [Kind κ] [SideKind κ] [WireKey κ] [SlotOf κ] (st : St) (slot : Nat) (o : Obj κ) : List String → St × String
+  | ["setinc", k, n, md] =>
+    match key? (κ := κ) k, n.toNat?, tree? md with
+    | some k, some n, some md => oacc st slot (ostep o (.setInc k n md))
+    | _, _, _ => (st, "bad-op")
+  | ["addempty", name, md] =>
+    match tree? md with
+    | some md => oacc st slot (ostep o (.addEmpty name md))
+    | none => (st, "bad-op")
+  | ["side"] => (st, showInc o.inc ++ " " ++ showTree (.obj o.empties))
+  | ["text"] => (st, match hashTextObj pyFmt o with | some x => "=" ++ x | none => "none")
+  | ["pre"] => (st, showOpt (preimage? o.base))
+  | cmd =>
+    match baseOp? (κ := κ) cmd with
+    | some op => oacc st slot (ostep o (.base op))
+    | none => (st, "bad-op")
+
+def mkObj (st : St) (slot : Nat) (kind : String) (w : Bool) (hm : JTree) : St × String :=
+  match hm with
+  | .obj l =>
+    match kind with
+    | "H" => (AL.set st slot (SlotOf.obj (oinit KH w l)), "ok")
+    | "D" => (AL.set st slot (SlotOf.obj (oinit KD w l)), "ok")
+    | "T" => (AL.set st slot (SlotOf.obj (oinit KT w l)), "ok")
+    | "M" => (AL.set st slot (SlotOf.obj (oinit KM w l)), "ok")
+    | _ => (st, "bad-op")
   | _ => (st, "bad-op")
 
 def mkNew (st : St) (slot : Nat) (kind : String) (w : Bool) (hm : JTree) : St × String :=
@@ -300,9 +377,17 @@ def heapCmd (cells refs : String) : String :=
 
 def stepLine (st : St) : List String → St × String
   | ["heap", cells, refs] => (st, heapCmd cells refs)
+  | ["dumps", v] =>
+    match tree? v with
+    | some v => (st, "=" ++ dumpsJ pyFmt v)
+    | none => (st, "bad-op")
   | ["new", slot, kind, w, hm] =>
     match slot.toNat?, tree? hm with
     | some s, some hm => mkNew st s kind (w == "1") hm
+    | _, _ => (st, "bad-op")
+  | ["onew", slot, kind, w, hm] =>
+    match slot.toNat?, tree? hm with
+    | some s, some hm => mkObj st s kind (w == "1") hm
     | _, _ => (st, "bad-op")
   | ["build", slot, kind, w, hm, ns, nmds, ww, ks, ws, mds] =>
     match slot.toNat?, tree? hm with
@@ -330,6 +415,10 @@ def stepLine (st : St) : List String → St × String
       | some (.cd c) => conCmd st s c (cmd :: rest)
       | some (.ct c) => conCmd st s c (cmd :: rest)
       | some (.cm c) => conCmd st s c (cmd :: rest)
+      | some (.oh o) => objCmd st s o (cmd :: rest)
+      | some (.od o) => objCmd st s o (cmd :: rest)
+      | some (.ot o) => objCmd st s o (cmd :: rest)
+      | some (.om o) => objCmd st s o (cmd :: rest)
       | none => (st, "bad-slot")
     | none => (st, "bad-op")
   | _ => (st, "bad-op")
